@@ -25,7 +25,8 @@
        probabilities of the data (EVERY matrix V), it is linear in the Choi matrix, the matrix
        _gradient returns satisfies tr(G D) = d/dt cost(choi + t D) for every direction D, the
        rows of _a_mat are Hermitian and, for real weights, G is the Hilbert-Schmidt gradient;
-       _tp_proj makes the partial trace the identity;
+       _tp_proj makes the partial trace over the output factor the identity (trace preservation in the
+       output (x) input ordering of choi_from_unitary);
      - regression theorems about the definitions of the pinned tree ([*_pinned], findings
        F9 and F8, repaired in /repo by 00f76fe and daa21e7).
    OUTSIDE PROOF (oracle-tested by harness/c16.py on generated unitaries only):
@@ -199,14 +200,36 @@ Theorem C16_mle_gradient_pinned_refuted :
 Proof. exact mle_gradient_pinned_refuted_V. Qed.
 Print Assumptions C16_mle_gradient_pinned_refuted.
 
-(* _tp_proj: the partial trace over the second factor of the result is the identity,
-   for EVERY 4^n x 4^n matrix, every n *)
+(* _tp_proj (repaired): Choi matrices are ordered output (x) input (as choi_from_unitary builds them), and the
+   partial trace over the OUTPUT factor of the result is the identity, for EVERY 4^n x 4^n matrix, every n -
+   the trace-preservation constraint *)
 Theorem C16_tp_proj_spec :
   forall (K : Type) (o : ops K) (ii hh : K), TomoRing o ii hh ->
   forall (n : nat) (choi : nat -> nat -> K) (i j : nat), i < 2 ^ n -> j < 2 ^ n ->
     partial_trace o (2 ^ n) (tp_proj o n choi) i j = mid o i j.
 Proof. exact (fun K o ii hh TR => tp_proj_spec (TR:=TR)). Qed.
 Print Assumptions C16_tp_proj_spec.
+
+(* ... and that IS the right factor for the library's reference: the partial trace over the output factor of
+   choi_from_unitary(V) is sum_k V[k,i] conj(V[k,j]) = conj((V^dagger V)[i,j]), the identity for every V with
+   V^dagger V = 1 (so the reference satisfies the constraint the projection enforces) *)
+Theorem C16_reference_satisfies_tp_constraint :
+  forall (K : Type) (o : ops K) (ii hh : K), TomoRing o ii hh ->
+  forall (d : nat) (V : nat -> nat -> K) (i j : nat), i < d -> j < d ->
+    partial_trace o d (choi_from_unitary o d V) i j = sumn o d (fun k => kmul o (V k i) (kconj o (V k j))).
+Proof. exact (fun K o ii hh TR => @choi_from_unitary_partial_trace K o). Qed.
+Print Assumptions C16_reference_satisfies_tp_constraint.
+
+(* the pinned projection (trace over the second factor, kron(variation, identity)) made the partial trace
+   over the INPUT factor the identity: in the output (x) input ordering that is unitality, not trace
+   preservation (left over from the input-first convention of the pinned MLE; invisible for unitary
+   processes, which are both; repaired in /repo together with findings F8/F9) *)
+Theorem C16_tp_proj_pinned_enforced_unitality :
+  forall (K : Type) (o : ops K) (ii hh : K), TomoRing o ii hh ->
+  forall (n : nat) (choi : nat -> nat -> K) (i j : nat), i < 2 ^ n -> j < 2 ^ n ->
+    partial_trace_pinned o (2 ^ n) (tp_proj_pinned o n choi) i j = mid o i j.
+Proof. exact (fun K o ii hh TR => tp_proj_pinned_spec (TR:=TR)). Qed.
+Print Assumptions C16_tp_proj_pinned_enforced_unitality.
 
 (* ---- the hypotheses are satisfiable; statements checked by computation ---- *)
 (* Ry(cos = 3/5, sin = 4/5) is unitary and not symmetric, S is unitary and complex; a
